@@ -40,7 +40,7 @@ def seq_case(rng, maxlen):
             elif r < 0.87:
                 ops.append(("m", ty, v))
             elif r < 0.93:
-                ops.append(("t",))
+                ops.append((rng.choice(["t", "t", "p"]),))      # a provided method with a `&mut self` / `Pin<&mut Self>` receiver
             elif r < 0.96 and k == 0:
                 ops.append(("n",))          # no_verify_in_drop(), late: only legal on the original
             else:
@@ -82,7 +82,7 @@ def coq_case(c):
     if c["kind"] == "seq":
         def op(o):
             if o[0] == "l": return "CLive"
-            if o[0] == "t": return "CTouch"
+            if o[0] in ("t", "p"): return "CTouch"
             if o[0] == "n": return "CNvid"
             return f"{ {'r': 'CRef', 'm': 'CMut', 'h': 'CHelp'}[o[0]] } {o[1]} {o[2]}"
         return "ChSeq [" + "; ".join("[" + "; ".join(op(o) for o in ops) + "]" for ops in c["sessions"]) + "]"
